@@ -10,12 +10,13 @@ cross-checked by a brute-force search over compiled plans with the real validato
 from itertools import product
 
 from harness import compcheck as cc
+from harness import layera
 
 META = {
     "level": "translation_validation",
     "technique": "Coq-verified validator (exhaustive enumeration of valid original plans; propagation of compiled configuration sets through the real map-back table; proved: a true answer yields, for every valid original plan up to the bound, a valid compiled plan at most k steps longer that maps back to it modulo no-op steps) applied by vm_compute to the output of the real compilers",
-    "text": "complete_check_correct for all plans of any pair of problems; unsolvable_transfers (unsolvable compiled problem implies unsolvable original, up to the bound); complete_search_witness (a false answer names a valid original plan). The quantifier over plans is proved, the quantifier over problems is sampled.",
-    "note": "validated, not proved for all problems. Reading (DESIGN.md 6.00): 'maps back to the same sequence' is modulo original steps that change no ground fluent (documented: variants/groundings without effects are discarded); bound k+1 only for compilers that add a goal-achieving action (DisjunctiveConditionsRemover and pipelines containing it). A compiler that rejects a problem as unsolvable (TrajectoryConstraintsRemover: constraint violated initially) is checked by searching the original for a valid plan. Strict documented semantics on both sides; witnesses double-checked with the real validator. No axioms.",
+    "text": "LAYER A (proved for ALL problems of the modelled fragment, Props/C07.v C07_LA_*): quant_complete (same plan), sir_complete / btr_complete (same plan; the one hypothesis on the initial state is that the moved constraints hold in it), cer_complete and dcr_complete (a compiled plan, not longer, mapping back to the original modulo no-op steps; bound k = 0, the fake-goal case k + 1 stays validated), each tied to the code by the structural correspondence of harness/layera.py (evidence keys layerA_*). LAYER B: complete_check_correct for all plans of any pair of problems; unsolvable_transfers (unsolvable compiled problem implies unsolvable original, up to the bound); complete_search_witness (a false answer names a valid original plan). The quantifier over plans is proved, the quantifier over problems is sampled.",
+    "note": "level stays translation_validation: PROVED for all problems (Layer A) = QuantifiersRemover (when no action is left out for conflicting expanded effects), StateInvariantsRemover, BoundedTypesRemover, ConditionalEffectsRemover (given C37_conflict_drop_sound's conclusion; otherwise finding C07-cer-syntactic-conflict-variant-dropped), DisjunctiveConditionsRemover without auxiliary goal action; VALIDATED ONLY = Grounder (static-fluent pruning), NegativeConditionsRemover, UsertypeFluentsRemover, TrajectoryConstraintsRemover, UndefinedInitialNumericRemover, the fake goal action, pipelines. Hypotheses as listed in C06's note. Layer B: validated, not proved for all problems. Reading (DESIGN.md 6.00): 'maps back to the same sequence' is modulo original steps that change no ground fluent (documented: variants/groundings without effects are discarded); bound k+1 only for compilers that add a goal-achieving action (DisjunctiveConditionsRemover and pipelines containing it). A compiler that rejects a problem as unsolvable (TrajectoryConstraintsRemover: constraint violated initially) is checked by searching the original for a valid plan. Strict documented semantics on both sides; witnesses double-checked with the real validator. No axioms.",
 }
 
 
@@ -71,7 +72,7 @@ def brute_force_counterpart(c, w, k):
 
 
 def run(ctx):
-    ok_proofs = ctx.check_props(extra=["theories/Corr/Corr_C06.v"])
+    ok_proofs = ctx.check_props(extra=["theories/Corr/Corr_C06.v", "theories/Corr/Corr_LayerA.v"])
     per, n, max_insts = (20, 2, 12) if ctx.quick else (45, 3, 14)
     cases, gstats = cc.build_cases(ctx, per, max_insts)
     live = [c for c in cases if c.live]
@@ -127,6 +128,11 @@ def run(ctx):
                       brute_force_status=("not-run" if bf is None else ("none-found" if bf is False else "found")),
                       coq_oracle="UPV.Compilers.SimCheck.complete_search (k=%d, n=%d)" % (k, n)),
                  True)
+    # ------------------------------------------------------------------ Layer A: structural correspondence -------
+    # (separate from the validation above; see harness/layera.py)
+    failed_idx = set(c.idx for c in live if reports[c.idx][1] != 0)
+    la_cov = layera.run(ctx, cases, validator_failed=failed_idx)
+    # ------------------------------------------------------------------ end of Layer A block ----------------------
     if not ok_proofs:
         ctx.proof_broken()
     dist = cc.distribution(cases)
@@ -145,6 +151,7 @@ def run(ctx):
         "distribution": dist,
         "plan_length": n,
         "exhaustive": False,
+        **la_cov,
     }, "translation_validation",
         assumptions=["problems are sampled (generated inside each compiler's supported kind); original plans are covered exhaustively up to the length bound",
                      "'same sequence of action instances' is read modulo original steps that change no ground fluent"])
